@@ -2,6 +2,7 @@ import ERP.Spec.Lifecycle
 import ERP.Lemmas.Monad
 import Mathlib.Data.List.Nodup
 import ERP.Lemmas.GenConsts
+import ERP.Lemmas.GenTies
 /-! # C13 — Region registry integrity and client notification
 
 Quantified over API requests (valid, duplicate id, unknown id, wrong type, anonymous) interleaved
